@@ -78,7 +78,7 @@ func vC35Names(ns []vC35Name) (string, []any) {
 	var d []any
 	s := cqListOf(ns, func(n vC35Name) string {
 		d = append(d, map[string]any{"name": n.name, "publish": n.publish})
-		return cqPair(cqBytes(n.name), cqBool(n.publish))
+		return cqPair(vC35Q(n.name), cqBool(n.publish))
 	})
 	return s, d
 }
@@ -248,6 +248,46 @@ func vC35Setup(raw string) (name string, ok bool, panicked bool) {
 	return sx.pathName, true, false
 }
 
+// vC35Q prints a byte string as a Gallina list, run-length encoding long periodic stretches (rp n unit):
+// coqc parses list literals slowly, and the long generated paths are repetitions.
+func vC35Q(s string) string {
+	if len(s) < 96 {
+		return cqBytes(s)
+	}
+	var parts []string
+	lit := 0
+	i := 0
+	for i < len(s) {
+		best, bestP := 0, 0
+		for p := 1; p <= 3 && i+p <= len(s); p++ {
+			j := i + p
+			for j < len(s) && s[j] == s[j-p] {
+				j++
+			}
+			if reps := (j - i) / p; reps >= 16 && reps*p > best {
+				best, bestP = reps*p, p
+			}
+		}
+		if best > 0 {
+			if lit < i {
+				parts = append(parts, cqBytes(s[lit:i]))
+			}
+			parts = append(parts, "rp "+cqZ(int64(best/bestP))+" "+cqBytes(s[i:i+bestP]))
+			i += best
+			lit = i
+		} else {
+			i++
+		}
+	}
+	if lit < len(s) {
+		parts = append(parts, cqBytes(s[lit:]))
+	}
+	if len(parts) == 1 && !strings.HasPrefix(parts[0], "rp ") {
+		return parts[0]
+	}
+	return "(" + strings.Join(parts, " ++ ") + ")"
+}
+
 func TestVerifC35Moq(t *testing.T) {
 	r := vNewRand(vSeed())
 	out := vOpenOut()
@@ -336,12 +376,12 @@ func TestVerifC35Moq(t *testing.T) {
 			if m == "GET" && strings.HasSuffix(p, "/authmirror") && status == 200 {
 				var v struct{ User, Pass string }
 				if json.Unmarshal([]byte(body), &v) == nil && vC35Printable(v.User) && vC35Printable(v.Pass) && !strings.ContainsRune(body, 0xfffd) {
-					am = "(Some " + cqPair(cqBytes(v.User), cqBytes(v.Pass)) + ")"
+					am = "(Some " + cqPair(vC35Q(v.User), vC35Q(v.Pass)) + ")"
 				}
 				oc = "authmirror-200"
 			}
 		}
-		out.Case(cqApp("CMoqH2", vC35Meth(m), cqBytes(p), cqBytes(a), obs, am),
+		out.Case(cqApp("CMoqH2", vC35Meth(m), vC35Q(p), vC35Q(a), obs, am),
 			map[string]any{"front": "moq-h2", "mode": "direct", "method": m, "path": p, "authorization": a, "status": status,
 				"panic": panicked, "pm_calls": nd, "body": body[:min(len(body), 80)]}, "moq-h2/"+class+"/"+oc, len(names) > 0 || oc == "authmirror-200")
 	}
@@ -369,12 +409,13 @@ func TestVerifC35Moq(t *testing.T) {
 			obs = cqApp("ORes", cqZ(int64(status)), "[]", cqZ(int64(tag)))
 			oc = fmt.Sprintf("%s-%d-%d", m, status, tag)
 		}
-		out.Case(cqApp("CMoqH3", vC35Meth(m), cqBytes(p), obs),
+		out.Case(cqApp("CMoqH3", vC35Meth(m), vC35Q(p), obs),
 			map[string]any{"front": "moq-h3", "mode": "direct", "method": m, "path": p, "status": status, "panic": panicked},
 			"moq-h3/"+class+"/"+oc, status == 400)
 	}
 
 	// ---- WebTransport sessions opened by a real client --------------------------------------------------------
+	seen := map[string]bool{}
 	wtFixed := []string{"/cam", "/cam/moq", "/moq", "/a/b", "/", "//", "/a%2Fb/moq", "/%2E%2E", "/cam/"}
 	for i := 0; i < nWT; i++ {
 		class := "fixed"
@@ -409,9 +450,15 @@ func TestVerifC35Moq(t *testing.T) {
 		}
 		if err == nil {
 			for k := 0; k < 100 && !present; k++ {
-				if l, err2 := s.APISessionsList(); err2 == nil && len(l.Items) > 0 {
-					got, present = l.Items[0].Path, true
-				} else {
+				if l, err2 := s.APISessionsList(); err2 == nil {
+					for _, it := range l.Items {
+						if !seen[it.ID.String()] {
+							seen[it.ID.String()] = true
+							got, present = it.Path, true
+						}
+					}
+				}
+				if !present {
 					time.Sleep(20 * time.Millisecond)
 				}
 			}
@@ -420,13 +467,7 @@ func TestVerifC35Moq(t *testing.T) {
 		}
 		d.Close() //nolint:errcheck
 		cancel()
-		for k := 0; k < 150; k++ { // wait for the session to be gone
-			if l, err2 := s.APISessionsList(); err2 == nil && len(l.Items) == 0 {
-				break
-			}
-			time.Sleep(20 * time.Millisecond)
-		}
-		out.Case(cqApp("CMoqWT", cqBytes(u.Path), cqOpt(present, cqBytes(got))),
+		out.Case(cqApp("CMoqWT", vC35Q(u.Path), cqOpt(present, vC35Q(got))),
 			map[string]any{"front": "moq-webtransport", "mode": "wire", "target": target, "path": u.Path, "status": status,
 				"session": present, "session_path": got}, fmt.Sprintf("moq-wt/%s/session=%v", class, present), present)
 	}
@@ -448,10 +489,10 @@ func TestVerifC35Moq(t *testing.T) {
 		up := "None"
 		if raw != "" {
 			if u, err := url.ParseRequestURI(raw); err == nil {
-				up = "(Some " + cqBytes(u.Path) + ")"
+				up = "(Some " + vC35Q(u.Path) + ")"
 			}
 		}
-		out.Case(cqApp("CMoqQuic", up, cqOpt(ok, cqBytes(name)), cqBool(panicked)),
+		out.Case(cqApp("CMoqQuic", up, cqOpt(ok, vC35Q(name)), cqBool(panicked)),
 			map[string]any{"front": "moq-quic", "func": "processSetupMessage", "PATH": raw, "accepted": ok, "name": name, "panic": panicked},
 			fmt.Sprintf("moq-quic/%s/accepted=%v", class, ok), ok)
 	}
